@@ -23,12 +23,16 @@ LEVEL_NOTE = ("No hook in /repo: the per-region constraint list of the C++ (desi
               "for separated pairs: d/10 - 3e-4 (>= d/10 after <= 9 reductions, - 2*1e-4 satisfied-tolerance, - 1e-4 float "
               "slack). Finding classes counted, SPECFAIL only once known_findings.json names them: opt-final-nudge "
               "(option nudgeOrthogonalSegmentsConnectedToShapes moves end points / checkpoint segments by design), "
-              "narrow-sep (infeasible narrow region applied with constraints dropped by VPSC), cp-disp, lib-assert.")
+              "narrow-sep (infeasible narrow region applied with constraints dropped by VPSC), lib-assert, cp-disp "
+              "(checkpoint lost from displayRoute() that sits on a simplify()-cut spur or at a bend of route()). A lost "
+              "checkpoint strictly inside a straight segment of route() is always SPECFAIL ([cp-disp-mid]).")
 TECHNIQUE = "Lean 4 theorems (nudging-region constraint model, checker soundness) + correspondence harness on corridor scenes"
 RULE = ("corridor of free width W between two blocks (horizontal/vertical), m=2..6 orthogonal connectors with pairwise "
         "distinct end coordinates crossing it, d in {1,4,10}, all 32 combinations of the five nudging options in turn, "
         "buffer 0/2, fixedSharedPathPenalty 0/110, optional checkpoint in the corridor; 3/4 of the cases wide enough "
-        "(W >= (m+1)d). A case is non-trivial if at least two connectors share a collinear stretch before nudging.")
+        "(W >= (m+1)d). Second family (tags cpmid / cpmid-mirror, appended after the corridor cases): one obstacle, "
+        "2-3 S/Z-shaped connectors whose first leg runs through a checkpoint strictly inside it, middle segments "
+        "sharing the channel between obstacle and checkpoints (wide enough by construction), mirrored control. A case is non-trivial if at least two connectors share a collinear stretch before nudging.")
 TRUSTED_BASE = ["Lean 4.33 kernel", "axioms: propext, Classical.choice, Quot.sound", "Lean compiler for the driver",
                 "harness/c10.cpp generator (wide-enough construction) + hex-float import"]
 ASSUMPTIONS = ["integer scene coordinates", "end points are free points (no shapes / pins at the ends)"]
